@@ -67,7 +67,7 @@ def run(c):
     for s in scen:
         if s["sc"] in deaths:
             d = deaths[s["sc"]]
-            c.report("death:%s:%s" % (d["kind"], (d.get("inflight") or {}).get("call")), "process %s during a store operation" % d["kind"], {"scenario": s, "death": d})
+            c.report("death:%s:%s" % (d["kind"], (d.get("inflight") or {}).get("call")), "process %s during a store operation" % d["kind"], dict({"scenario": s, "death": d}, **c.rp("varstore", s, validate=("EfiVarFsTrace", "EfiVarFsTrace.cfg"), strip=("sc", "i", "panic", "gotlen", "ev"))))
             continue
         for e in res.get(s["sc"], []):
             e = {k: v for k, v in e.items() if k not in ("sc", "i", "panic", "gotlen", "ev")}
@@ -86,7 +86,7 @@ def run(c):
             if not c.validate_traces("EfiVarFsTrace", "EfiVarFsTrace.cfg", ev2):
                 raise vf.FrameworkError("rejection not reproduced")
         c.report(key, "event %s %s -> %s/%s is not a step of the register specification" % (e.get("op"), e.get("v"), e.get("res"), e.get("got")),
-                 {"scenario": s, "event": e})
+                 dict({"scenario": s, "event": e}, **c.rp("varstore", s, validate=("EfiVarFsTrace", "EfiVarFsTrace.cfg"), strip=("sc", "i", "panic", "gotlen", "ev"))))
     c.cov["evaluations"] = len(scen)
     c.cov["traces_validated_against_impl"] = len(scen)
     c.cov["exhaustive_depth"] = 2 if c.quick else 3
